@@ -382,6 +382,28 @@ func RuleListen(r *Report, p *Program) {
 				bad = fmt.Sprintf("a datagram produces %d error callbacks and %d forwarded events under [%s]", nErr, nSend, cut(pa.State.Describe(), 160))
 				continue
 			}
+			// ... and it refuses a datagram only for a reason the protocol gives it: wrong length, serial number zero,
+			// or the decoder's verdict (the decoder decides what a well-formed event is: F4, the codec rules)
+			if nErr == 1 {
+				justified := false
+				if ln, ok := pa.State.Ints["len(dg)"]; ok && ln.Intersect(IntervalSet{{64, 64}}).Empty() {
+					justified = true
+				}
+				for k, v := range pa.State.Ints {
+					if strings.Contains(k, "Uint32") && strings.Contains(k, "dg[4:8") && v.String() == "{0}" {
+						justified = true
+					}
+				}
+				for k, v := range pa.State.Bools {
+					if strings.HasPrefix(k, "isnil(") && !v && (strings.Contains(k, "codec.") || strings.Contains(k, "decode")) {
+						justified = true
+					}
+				}
+				if !justified {
+					bad = "the handler refuses a datagram under [" + cut(pa.State.Describe(), 200) + "]: neither its length, nor a zero serial number, nor the decoder rejects it"
+					continue
+				}
+			}
 			if nSend == 1 {
 				nFwd++
 				ln := pa.State.Ints["len(dg)"]
